@@ -4235,6 +4235,15 @@ def _parse_simple_lines(
 def parse(src: str) -> Program:
     """Parse ``src`` into a :class:`~Reduino.transpile.ast.Program`."""
 
+    try:
+        return _parse_source(src)
+    except RecursionError as exc:
+        raise ValueError("script is nested too deeply to be transpiled") from exc
+    except OverflowError as exc:
+        raise ValueError("numeric constant is out of range") from exc
+
+
+def _parse_source(src: str) -> Program:
     lines = src.splitlines()
     setup_body: List[object] = []
     loop_body: List[object]  = []
